@@ -379,15 +379,35 @@ static json observe_all(State& st, const json& a)
     }
     o["crate_handles"] = hc;
     o["track_handles"] = ht;
+    // the highest id in use is taken over live entities, handles and the small remembered ids (those of
+    // handles released by a reopen), not over far-away probe ids
+    for (auto i : st.ids)
+        if (i >= 0 && i < 100000)
+        {
+            cids.insert(i);
+            tids.insert(i);
+        }
+    int64_t maxc = cids.empty() ? 0 : *cids.rbegin();
+    int64_t maxt = tids.empty() ? 0 : *tids.rbegin();
     for (auto i : st.ids)
     {
         cids.insert(i);
         tids.insert(i);
     }
-    int64_t maxc = cids.empty() ? 0 : *cids.rbegin();
-    int64_t maxt = tids.empty() ? 0 : *tids.rbegin();
-    cids.insert(maxc + 1);
-    tids.insert(maxt + 1);
+    // ids just above the highest known one are probed too ("probe_span" of them): some schema versions keep
+    // internal placeholder rows there
+    int span = a.value("probe_span", 1);
+    for (int k = 1; k <= span; ++k)
+    {
+        cids.insert(maxc + k);
+        tids.insert(maxt + k);
+    }
+    if (span > 1 && maxc < 200 && maxt < 200)
+    {
+        // dense probing of every small id, used or not
+        for (int64_t i = 0; i <= maxc; ++i) cids.insert(i);
+        for (int64_t i = 0; i <= maxt; ++i) tids.insert(i);
+    }
     cids.insert(0);
     tids.insert(0);
     // lookups by id
